@@ -147,10 +147,18 @@ func c17Row(cs c17Case) (req, impl, verdict string) {
 		return req, "err", "ok"
 	}
 	out, status := runApplyTo(rw, cs.schemas, bs, cs.language)
-	if status != "ok" {
-		return req, status, c17OracleFailed(cs, decoded, status)
+	impl = status
+	if status == "ok" {
+		impl = "ok " + virBuilders(out)
+		verdict = c17Oracle(cs, decoded, out)
+	} else {
+		verdict = c17OracleFailed(cs, decoded, status)
 	}
-	return req, "ok " + virBuilders(out), c17Oracle(cs, decoded, out)
+	if c17Hazard != "" {
+		// outside the model's faithful domain: the oracle still judges the real output, the model is not asked
+		return "-", "hazard-" + c17Hazard, verdict
+	}
+	return req, impl, verdict
 }
 
 func c17Shrink(c caseID, class string) caseID {
